@@ -64,9 +64,13 @@ def structural_difference(got, want) -> bool:
     for _, x, y in pairs:
         if not (isinstance(x, tuple) and isinstance(y, tuple) and x and y and isinstance(x[0], str) and isinstance(y[0], str)):
             continue
-        if x[0] == y[0]:
+        # an un-modelled iteration combinator (functools.reduce, itertools.accumulate) is an iteration shape too
+        OPAQUE_ITER = (("ext", "functools.reduce"), ("ext", "itertools.accumulate"))
+        xs = x[0] in STRUCT or (x[0] == "call" and x[1] in OPAQUE_ITER)
+        ys = y[0] in STRUCT or (y[0] == "call" and y[1] in OPAQUE_ITER)
+        if x[0] == y[0] and not ((xs or ys) and x[0] == "call" and x[1] != y[1]):
             continue
-        if x[0] not in STRUCT and y[0] not in STRUCT:
+        if not xs and not ys:
             continue
         kx, ky = _key(x), _key(y)
         if any(_key(z) == ky for z in _walk(x)) or any(_key(z) == kx for z in _walk(y)):
@@ -250,7 +254,17 @@ def abstract_spline(t):
         return None
     XR, KS = ("sym", "XR"), ("sym", "K")
     kK, kX = key(K), key(xr)
-    t2 = subst(t, lambda s: KS if key(s) == kK else None)
+    # the successor subscript may have simplified to a term that no longer contains K ((s - 1) + 1 = s)
+    succ = {key(b) for b in idxs if same(mk_add((K, C(1))), b) and not any(key(z) == kK for z in walk(b))}
+    t2 = t
+    if succ:
+        K1 = mk_add((KS, C(1)))
+        def _succ(s):
+            if s[0] == "sub" and key(s[2]) in succ:
+                return ("sub", s[1], K1)
+            return None
+        t2 = subst(t2, _succ)
+    t2 = subst(t2, lambda s: KS if key(s) == kK else None)
     t2 = subst(t2, lambda s: XR if key(s) == kX else None)
     return t2, xr, K, table
 
@@ -308,7 +322,15 @@ def rule_spline(prog, rep, R="C07.spline"):
             continue
         wp = where_parts(t)
         if not wp:
-            rep.undecided(R, site, k + ":where", f"result is not where(mask, formula, tail): {show(t, 160)}")
+            tests_input = any(s2[0] == "cmp" and any(z == X for z in walk(s2)) for s2 in walk(t))
+            if not tests_input:
+                # no comparison on the input anywhere: the method cannot treat out-of-interval inputs differently
+                rep.violated(R, site, k + ":where",
+                             f"{name} never tests its input against the interval ({show(t, 140)}): outside the interval "
+                             f"it must be the identity (derivative 1), but it evaluates the in-bounds formula at a "
+                             f"sanitised point")
+            else:
+                rep.undecided(R, site, k + ":where", f"result is not where(mask, formula, tail): {show(t, 160)}")
             continue
         mask, inb, outb = wp
         from .spline import mask_info as _mi
